@@ -154,7 +154,15 @@ pub fn run(cfg: &RunCfg) {
   // registry (stage B2) worlds: manifest checksums, lockfile package checksums, https URLs into the registry
   let nj = if cfg.tier == Tier::Quick { 3000 } else { 60000 };
   let tier = cfg.tier;
-  run_cases(cfg, n + nj, |seed, k| {
-    if k < n { gen_case(seed, k, tier) } else { crate::props::jsr::gen_case(seed, k - n, crate::props::jsr::Flavour::Checksums) }
+  // registries whose package files are also imported as assets: the real loader calls are judged
+  let na = if cfg.tier == Tier::Quick { 800 } else { 20000 };
+  run_cases(cfg, n + nj + na, |seed, k| {
+    if k < n {
+      gen_case(seed, k, tier)
+    } else if k < n + nj {
+      crate::props::jsr::gen_case(seed, k - n, crate::props::jsr::Flavour::Checksums)
+    } else {
+      crate::props::jsr::gen_case_asset_calls(seed, k - n - nj)
+    }
   });
 }
